@@ -13,7 +13,8 @@ F = "src/fsm.rs"
 M("c15-internal-goes-to-external-queue", "R15.1", (S, "                event.etype = EventType::internal;\n                global_lock.enqueue_internal(event);",
                                                       "                event.etype = EventType::internal;\n                global_lock.externalQueue.enqueue(Box::new(event));"))
 M("c15-session-prefix-shadowed-by-invoke-prefix", "R15.1", (S, "if target.starts_with(SCXML_TARGET_SESSION_ID_PREFIX) {", "if target.starts_with(SCXML_TARGET_SESSION_ID_PREFIX) && target.len() > 64 {"))
-M("c15-parent-target-sent-to-self", "R15.1", (S, "let sid = global_lock.parent_session_id.unwrap();", "let sid = global_lock.session_id;"))
+M("c15-parent-target-sent-to-self", "R15.1", (S, "                Some(sid) => self.send_to_session(&mut global_lock, sid, event),",
+                                                 "                Some(_) => {\n                    let sid = global_lock.session_id;\n                    self.send_to_session(&mut global_lock, sid, event)\n                }"))
 M("c15-delivered-twice", "R15.1", (S, "                global_lock.externalQueue.enqueue(Box::new(event));\n                true",
                                       "                global_lock.externalQueue.enqueue(Box::new(event.clone()));\n                global_lock.externalQueue.enqueue(Box::new(event));\n                true"))
 M("c15-internal-keeps-external-type", "R15.1", (S, "                event.etype = EventType::internal;\n", ""))
@@ -40,14 +41,16 @@ M("c15-session-id-load-then-store", "R15.4", (F, "let session_id: SessionId = SE
 M("c15-platform-id-not-advanced", "R15.4", (X, "PLATFORM_ID_COUNTER.fetch_add(1, Ordering::Relaxed)", "PLATFORM_ID_COUNTER.fetch_add(0, Ordering::Relaxed)"))
 
 # ---- benign refactors
-B("c15-benign-rename-sid", (S, "                let sid = global_lock.parent_session_id.unwrap();\n                self.send_to_session(&mut global_lock, sid, event)",
-                               "                let parent_sid = global_lock.parent_session_id.unwrap();\n                self.send_to_session(&mut global_lock, parent_sid, event)"))
+B("c15-benign-rename-sid", (S, "                Some(sid) => self.send_to_session(&mut global_lock, sid, event),",
+                               "                Some(parent_sid) => self.send_to_session(&mut global_lock, parent_sid, event),"))
 B("c15-benign-hoist-slice", (S, "                    match target.get(SCXML_TARGET_SESSION_ID_PREFIX.len()..) {",
                                 "                    let rest = target.get(SCXML_TARGET_SESSION_ID_PREFIX.len()..);\n                    match rest {"))
 B("c15-benign-let-else-in-relay", (D, "        if let Some(ic) = ioc {\n            let mut icg = ic.lock().unwrap();\n            icg.send(self.global(), target.to_string().as_str(), event)\n        } else {\n            false\n        }",
                                       "        let Some(ic) = ioc else {\n            return false;\n        };\n        let mut icg = ic.lock().unwrap();\n        icg.send(self.global(), target.to_string().as_str(), event)"))
 B("c15-benign-reorder-stamps", (S, "        event.origin_type = Some(SCXML_EVENT_PROCESSOR.to_string());\n        if event.origin.is_none() {\n            event.origin = Some(self.get_location(global_lock.session_id).to_string());\n        }",
                                    "        if event.origin.is_none() {\n            event.origin = Some(self.get_location(global_lock.session_id).to_string());\n        }\n        event.origin_type = Some(SCXML_EVENT_PROCESSOR.to_string());"))
-B("c15-benign-trace-in-dispatch", (S, "            SCXML_TARGET_PARENT => {\n", "            SCXML_TARGET_PARENT => {\n                error!(\"routing to parent\");\n"))
+B("c15-benign-trace-in-dispatch", (S, "            SCXML_TARGET_PARENT => match global_lock.parent_session_id {\n",
+                                      "            SCXML_TARGET_PARENT => {\n                error!(\"routing to parent\");\n                match global_lock.parent_session_id {\n"),
+  (S, "                    false\n                }\n            },\n            _ => {\n", "                    false\n                }\n            }}\n            _ => {\n"))
 B("c15-benign-extract-own-location", (S, "            event.origin = Some(self.get_location(global_lock.session_id).to_string());",
                                          "            let own_id = global_lock.session_id;\n            event.origin = Some(self.get_location(own_id).to_string());"))
